@@ -157,7 +157,7 @@ func (o OneOfSchema[KeyType]) UnserializeType(data any) (result any, err error) 
 }
 
 func (o OneOfSchema[KeyType]) ValidateType(data any) error {
-	discriminatorValue, underlyingType, err := o.findUnderlyingType(data)
+	_, underlyingType, err := o.findUnderlyingType(data)
 	if err != nil {
 		return err
 	}
@@ -165,10 +165,9 @@ func (o OneOfSchema[KeyType]) ValidateType(data any) error {
 	if ok {
 		data = o.deleteDiscriminator(dataMap)
 	}
-	if err := underlyingType.Validate(data); err != nil {
-		return ConstraintErrorAddPathSegment(err, fmt.Sprintf("{oneof[%v]}", discriminatorValue))
-	}
-	return nil
+	// The path of an error names properties, indices and keys: the member selected is none of them, and Unserialize
+	// and Serialize do not add it either.
+	return underlyingType.Validate(data)
 }
 
 func (o OneOfSchema[KeyType]) SerializeType(data any) (any, error) {
